@@ -239,8 +239,7 @@ struct Worker {
     stdout: BufReader<ChildStdout>,
 }
 
-fn spawn_worker(id: &str, tier: Tier) -> Worker {
-    let exe = std::env::current_exe().expect("current_exe");
+fn spawn_worker(id: &str, tier: Tier, exe: &std::path::Path) -> Worker {
     let mut child = Command::new(exe)
         .arg("worker")
         .arg(id)
@@ -279,6 +278,33 @@ pub struct Aggregate {
     pub fingerprints: BTreeMap<u64, Vec<u64>>,
 }
 
+impl Aggregate {
+    pub fn merge(&mut self, o: Aggregate) {
+        self.cases += o.cases;
+        self.runs += o.runs;
+        self.steps += o.steps;
+        self.nontrivial.extend(o.nontrivial);
+        self.fold_orders.extend(o.fold_orders);
+        self.traces.extend(o.traces);
+        for (k, v) in o.faults {
+            *self.faults.entry(k).or_insert(0) += v;
+        }
+        for (k, v) in o.probes {
+            *self.probes.entry(k).or_insert(0) += v;
+        }
+        self.violations.extend(o.violations);
+        self.samples.extend(o.samples);
+        self.samples.truncate(6);
+        self.harness_errors.extend(o.harness_errors);
+        self.last_seed = o.last_seed;
+        self.slowest.extend(o.slowest);
+        self.slowest.sort_by(|a, b| b.cmp(a));
+        self.slowest.truncate(8);
+        self.notes.extend(o.notes);
+        self.fingerprints.extend(o.fingerprints);
+    }
+}
+
 /// Case timeout (wall clock): a safety net for loops that neither terminate
 /// nor poll. Verdict-producing budgets are all in simulated steps.
 const CASE_TIMEOUT: Duration = Duration::from_secs(180);
@@ -286,6 +312,13 @@ const CASE_TIMEOUT: Duration = Duration::from_secs(180);
 const ENOUGH_VIOLATIONS: usize = 60;
 
 pub fn run_pool(check: &'static dyn Check, tier: Tier, base: u64, n_workers: usize, only: Option<Vec<u64>>) -> Aggregate {
+    let exe = std::env::current_exe().expect("current_exe");
+    run_pool_with(check, tier, base, n_workers, only, exe)
+}
+
+/// As `run_pool`, with the worker processes started from `exe` (the same
+/// program built under another profile).
+pub fn run_pool_with(check: &'static dyn Check, tier: Tier, base: u64, n_workers: usize, only: Option<Vec<u64>>, exe: std::path::PathBuf) -> Aggregate {
     let id = check.info().id;
     let total = check.cases(tier);
     let indices: Vec<u64> = match only {
@@ -306,8 +339,9 @@ pub fn run_pool(check: &'static dyn Check, tier: Tier, base: u64, n_workers: usi
         let indices = indices.clone();
         let tx = tx.clone();
         let id = id.to_string();
+        let exe = exe.clone();
         handles.push(std::thread::spawn(move || {
-            let mut w = spawn_worker(&id, tier);
+            let mut w = spawn_worker(&id, tier, &exe);
             loop {
                 let k = next.fetch_add(1, Ordering::SeqCst) as usize;
                 if k >= indices.len() {
@@ -319,7 +353,7 @@ pub fn run_pool(check: &'static dyn Check, tier: Tier, base: u64, n_workers: usi
                     let _ = tx.send(WorkerEvent::Crashed(idx, seed, "worker pipe closed".into()));
                     let _ = w.child.kill();
                     let _ = w.child.wait();
-                    w = spawn_worker(&id, tier);
+                    w = spawn_worker(&id, tier, &exe);
                     continue;
                 }
                 // Read the answer with a wall-clock guard.
@@ -365,7 +399,7 @@ pub fn run_pool(check: &'static dyn Check, tier: Tier, base: u64, n_workers: usi
                         };
                         let _ = tx.send(WorkerEvent::Crashed(idx, seed, how));
                         let _ = t.join();
-                        w = spawn_worker(&id, tier);
+                        w = spawn_worker(&id, tier, &exe);
                     }
                     Err(_) => {
                         let _ = w.child.kill();
@@ -376,7 +410,7 @@ pub fn run_pool(check: &'static dyn Check, tier: Tier, base: u64, n_workers: usi
                             seed,
                             format!("no answer within {} s of wall time (hang outside any polled loop)", CASE_TIMEOUT.as_secs()),
                         ));
-                        w = spawn_worker(&id, tier);
+                        w = spawn_worker(&id, tier, &exe);
                     }
                 }
             }
@@ -591,8 +625,23 @@ pub fn check_main(check: &'static dyn Check, tier: Tier, workers: usize, limit: 
     let info = check.info();
     println!("check {} tier={} VERIF_SEED={} cases={} workers={}", info.id, tier.name(), base, check.cases(tier), workers);
     let t0 = Instant::now();
-    let only = limit.map(|n| (0..n.min(check.cases(tier))).collect::<Vec<u64>>());
-    let agg = run_pool(check, tier, base, workers, only);
+    let total = limit.map_or(check.cases(tier), |n| n.min(check.cases(tier)));
+    let second = std::env::var("SLX_SECOND_PROFILE_BIN").ok().filter(|p| std::path::Path::new(p).exists());
+    let agg = match (info.id, second) {
+        // C01 runs the even cases under the release profile and the odd
+        // cases under the same build with debug assertions on.
+        ("C01", Some(bin)) => {
+            let even: Vec<u64> = (0..total).filter(|i| i % 2 == 0).collect();
+            let odd: Vec<u64> = (0..total).filter(|i| i % 2 == 1).collect();
+            let mut a = run_pool(check, tier, base, workers, Some(even));
+            let b = run_pool_with(check, tier, base, workers, Some(odd), std::path::PathBuf::from(&bin));
+            *a.probes.entry("cases_under_release_profile".into()).or_insert(0) += a.cases;
+            *a.probes.entry("cases_under_debug_assertions_profile".into()).or_insert(0) += b.cases;
+            a.merge(b);
+            a
+        }
+        _ => run_pool(check, tier, base, workers, limit.map(|_| (0..total).collect())),
+    };
     let wall = t0.elapsed().as_secs_f64();
     if let Some(path) = dump {
         // Maintenance aid (never used by a registered command): write every
